@@ -10,6 +10,7 @@ import (
 	legacyany "github.com/cosmos/cosmos-proto/any"
 	"github.com/cosmos/cosmos-proto/anyutil"
 	"github.com/cosmos/cosmos-proto/zzverif/glue"
+	"google.golang.org/protobuf/encoding/protowire"
 	"google.golang.org/protobuf/proto"
 	"google.golang.org/protobuf/reflect/protodesc"
 	"google.golang.org/protobuf/reflect/protoreflect"
@@ -198,6 +199,113 @@ func engineAnyu(rep *Report) {
 				if i < len(hostile) {
 					h = hostile[i]
 				}
+				// ---- corrupt values: a value whose record framing is broken (see framingCorrupt: truncated, field number
+				// 0, wire types 6/7, stray or missing end-group) must be reported as an error on both paths; what both
+				// paths accept must be the same message.  Values on which parsers legitimately differ in strictness
+				// (mismatched end-group numbers, varints overflowing 64 bits, invalid UTF-8, a known field arriving with
+				// another wire type) are not judged.
+				if i < 4 {
+					base := want // (the packed value itself may order map entries differently from run to run)
+					corrupt := [][]byte{
+						append(append([]byte{}, base...), 0xff),
+						{0x0a, 0xff, 0xff, 0xff, 0xff, 0x0f},
+						{0xc0, 0x3e, 0x80}, {0xc1, 0x3e, 1, 2, 3}, {0xc2, 0x3e, 0x05, 1}, {0xc3, 0x3e, 0xc2, 0x3e, 0x7f}, {0xc5, 0x3e, 1},
+						append(append([]byte{}, base...), 0x80),
+						{0x00}, {0x00, 0x00}, {0x07}, {0xc7, 0x3e}, {0xc6, 0x3e, 0x00}, // field number 0, wire types 7 and 6
+						{0xc4, 0x3e},             // stray end-group
+						{0xc3, 0x3e, 0xcc, 0x3e}, // group closed by another field's end-group
+						{0xc2, 0x3e, 0xff, 0xff, 0xff, 0xff, 0xff, 0xff, 0xff, 0xff, 0x7f},       // length near 2^63
+						{0xc0, 0x3e, 0x80, 0x80, 0x80, 0x80, 0x80, 0x80, 0x80, 0x80, 0x80, 0x01}, // 11-byte varint
+						{0x80, 0x80, 0x80, 0x80, 0x80, 0x80, 0x80, 0x80, 0x80, 0x80, 0x01},       // over-long tag
+					}
+					for k := 0; k < 10 && len(base) > 0; k++ { // seeded damage to the valid value: cut, flip, insert, delete
+						b := append([]byte{}, base...)
+						switch r.Intn(4) {
+						case 0:
+							b = b[:r.Intn(len(b))]
+						case 1:
+							b[r.Intn(len(b))] ^= byte(1 << uint(r.Intn(8)))
+						case 2:
+							p := r.Intn(len(b) + 1)
+							b = append(b[:p], append([]byte{byte(r.Intn(256))}, b[p:]...)...)
+						default:
+							p := r.Intn(len(b))
+							b = append(b[:p], b[p+1:]...)
+						}
+						corrupt = append(corrupt, b)
+					}
+					// a map entry whose key field occurs twice, the second time with another wire type
+					for fi := 0; fi < d.Fields().Len(); fi++ {
+						if fd := d.Fields().Get(fi); fd.IsMap() {
+							var ent []byte
+							switch wireTypeOfKind(fd.MapKey().Kind()) {
+							case protowire.VarintType:
+								ent = []byte{0x08, 0x01, 0x0d, 0, 0, 0, 0}
+							case protowire.BytesType:
+								ent = []byte{0x0a, 0x01, 'k', 0x08, 0x01}
+							default:
+								ent = append(protowire.AppendTag(nil, 1, wireTypeOfKind(fd.MapKey().Kind())), make([]byte, 8)...)
+								if wireTypeOfKind(fd.MapKey().Kind()) == protowire.Fixed32Type {
+									ent = ent[:5]
+								}
+								ent = append(ent, 0x08, 0x01)
+							}
+							corrupt = append(corrupt, protowire.AppendBytes(protowire.AppendTag(nil, fd.Number(), protowire.BytesType), ent))
+							break
+						}
+					}
+					for _, cv := range corrupt {
+						refMsg := dynamicpb.NewMessage(d)
+						var refErr error
+						if rpan, _ := safely(func() { refErr = proto.Unmarshal(cv, refMsg) }); rpan {
+							rep.Count("C16", "corrupt-values-on-which-the-reference-parser-panics", 1)
+							refErr = fmt.Errorf("reference parser panics")
+						}
+						h := &anypb.Any{TypeUrl: "/" + tn, Value: cv}
+						var m1, m2 proto.Message
+						var e1, e2 error
+						rcc := map[string]interface{}{"engine": "anyu", "type": tn, "index": i, "seed": *flagSeed, "corrupt_value_hex": hx(cv)}
+						pan1, pmsg1 := safely(func() { m1, e1 = anyutil.Unpack(h, nil, nil) })
+						pan2, pmsg2 := safely(func() { m2, e2 = anyutil.Unpack(h, nil, emptyTypes) })
+						rep.Eval("C16", []byte("corrupt|"+tn+"|"+string(cv)), true)
+						rep.Count("C16", "corrupt-value-unpacks", 2)
+						if pan1 {
+							rep.Violate("C16", "anyu/unpack-panics", tn, fmt.Sprintf("Unpack (type-registry path) panics on the value %s: %s", hx(cv), pmsg1), rcc)
+						}
+						if pan2 {
+							rep.Violate("C16", "anyu/unpack-panics", tn, fmt.Sprintf("Unpack (file-registry path, dynamic message) panics on the value %s: %s", hx(cv), pmsg2), rcc)
+						}
+						if pan1 || pan2 {
+							continue
+						}
+						why, undecided := framingCorrupt(d, cv, 0)
+						if undecided {
+							rep.Count("C16", "corrupt-values-not-judged(strictness-differs)", 1)
+							continue
+						}
+						if why != "" {
+							rep.Count("C16", "corrupt-values-with-broken-framing", 1)
+							if refErr == nil {
+								rep.Inconclusive("C16", "framing-oracle-stricter-than-reference")
+								continue
+							}
+							if e1 == nil {
+								rep.Violate("C16", "anyu/corrupt-value-accepted", tn, fmt.Sprintf("value %x is corrupt (%s; reference parser: %v) but Unpack through the type registry returns a message", cv, why, refErr), rcc)
+							}
+							if e2 == nil {
+								rep.Violate("C16", "anyu/corrupt-value-accepted", tn, fmt.Sprintf("value %x is corrupt (%s; reference parser: %v) but Unpack through the file registry returns a message", cv, why, refErr), rcc)
+							}
+							continue
+						}
+						if refErr != nil {
+							rep.Count("C16", "values-rejected-by-reference-only-on-strictness", 1)
+							continue
+						}
+						if e1 == nil && e2 == nil && !bytes.Equal(canonOf(m1), canonOf(m2)) {
+							rep.Violate("C16", "anyu/paths-disagree", tn, fmt.Sprintf("type-registry and file-registry paths return different messages (%s) for the value %s", firstDiff(canonOf(m1), canonOf(m2)), hx(cv)), rcc)
+						}
+					}
+				}
 				for _, rv := range rs {
 					var um proto.Message
 					var ue error
@@ -218,6 +326,7 @@ func engineAnyu(rep *Report) {
 		guardCase(rep, "C16", "anyu", "well-known-types", 0, func() { anyuWKT(rep) })
 		guardCase(rep, "C16", "anyu", "self-pack", 0, func() { anyuSelfPack(rep) })
 		guardCase(rep, "C16", "anyu", "same-name-two-registries", 0, func() { anyuSameNameTwoRegistries(rep) })
+		guardCase(rep, "C16", "anyu", "deep-nesting", 0, func() { anyuDeep(rep) })
 	}
 }
 
@@ -374,4 +483,184 @@ func anyuSameNameTwoRegistries(rep *Report) {
 			rep.Violate("C16", "anyu/unpack-customfiles-differs", "vf.dyn.X", fmt.Sprintf("round %d: message built on a descriptor with %d fields (unknown bytes %d); the resolver passed in declares %d fields", round, nf, unk, wantFields), nil)
 		}
 	}
+}
+
+// anyuDeep: values nested beyond / within the reference's nesting limit, for types that recurse: the type-registry
+// path and the file-registry (dynamicpb) path must give the same verdict.
+func anyuDeep(rep *Report) {
+	emptyTypes := new(protoregistry.Types)
+	done := 0
+	for _, s := range allSubjects() {
+		d := s.Zero.ProtoReflect().Descriptor()
+		cycles := findCycles(d)
+		if len(cycles) == 0 {
+			continue
+		}
+		tn := string(s.FullName)
+		if done >= perType(8, 40) {
+			break
+		}
+		done++
+		for _, depth := range []int{3000, 9000, 10500, 12000, 25000} {
+			in := nestChain(cycles[0], depth)
+			a := &anypb.Any{TypeUrl: "/" + tn, Value: in}
+			var e1, e2 error
+			pan, pmsg := safely(func() {
+				_, e1 = anyutil.Unpack(a, nil, nil)
+				_, e2 = anyutil.Unpack(a, nil, emptyTypes)
+			})
+			rep.Eval("C16", []byte(fmt.Sprintf("deep|%s|%d", tn, depth)), true)
+			rep.Count("C16", "deep-nesting-unpacks", 2)
+			rc := map[string]interface{}{"engine": "anyu", "type": tn, "seed": *flagSeed, "depth": depth}
+			if pan {
+				rep.Violate("C16", "anyu/unpack-panics", tn, fmt.Sprintf("value nested %d deep: %s", depth, pmsg), rc)
+			} else if (e1 == nil) != (e2 == nil) {
+				rep.Violate("C16", "anyu/paths-disagree", tn, fmt.Sprintf("value nested %d levels deep: type-registry path err=%v, file-registry path err=%v", depth, e1, e2), rc)
+			}
+		}
+	}
+}
+
+// framingCorrupt walks b as a sequence of wire records for message type d and returns a reason when the record
+// framing itself is broken: input ends inside a tag, varint, fixed-width value, length-delimited payload or group;
+// field number 0 where a message's own fields are read (not inside unknown groups or map entries, whose tags the
+// skipper / entry reader only delimits); wire type 6 or 7; an end-group tag outside a group.  Payloads of known
+// message fields and map entries arriving as length-delimited records are walked recursively.  The second result
+// is true when the value exhibits something on which a lenient and a strict parser may differ (a known field with
+// another wire type, varints longer than 10 bytes, out-of-range field numbers): then nothing is judged.
+func framingCorrupt(d MD, b []byte, depth int) (string, bool) {
+	if depth > 200 {
+		return "", true
+	}
+	uvarint := func(b []byte) (uint64, int) { // lenient about overflow: up to 10 bytes, value bits beyond 64 ignored
+		var v uint64
+		for i := 0; i < len(b) && i < 10; i++ {
+			if i < 9 {
+				v |= uint64(b[i]&0x7f) << (7 * uint(i))
+			} else {
+				v |= uint64(b[i]&0x01) << 63
+			}
+			if b[i] < 0x80 {
+				return v, i + 1
+			}
+		}
+		if len(b) >= 10 {
+			return 0, -2 // more than 10 bytes: strictness differs between parsers
+		}
+		return 0, -1 // truncated
+	}
+	var walk func(d MD, b []byte, inGroup bool, depth int) (int, string, bool)
+	// returns (consumed, reason, undecided)
+	walk = func(d MD, b []byte, inGroup bool, depth int) (int, string, bool) {
+		i := 0
+		for i < len(b) {
+			tag, n := uvarint(b[i:])
+			if n == -1 {
+				return 0, "input ends inside a tag", false
+			}
+			if n == -2 || tag>>3 > uint64(protowire.MaxValidNumber) {
+				return 0, "", true
+			}
+			i += n
+			num, wt := protowire.Number(tag>>3), tag&7
+			if num == 0 {
+				if d == nil || d.IsMapEntry() {
+					// tags inside unknown groups and map entries are not validated by the skipper / entry reader
+					// (only delimited): strictness, not framing
+					return 0, "", true
+				}
+				return 0, "field number 0", false
+			}
+			if d != nil {
+				if fd := d.Fields().ByNumber(num); fd != nil {
+					// a known field arriving with another wire type: the reference keeps it as an unknown field, the
+					// generated decoder rejects it (or, inside a map entry, reads it as declared): not judged
+					want := uint64(wireTypeOfKind(fd.Kind()))
+					if wt != want && !(wt == 2 && fd.IsList() && want != 2) {
+						return 0, "", true
+					}
+				}
+			}
+			switch wt {
+			case 0:
+				_, n := uvarint(b[i:])
+				if n == -1 {
+					return 0, "input ends inside a varint", false
+				}
+				if n == -2 {
+					return 0, "", true
+				}
+				i += n
+			case 1:
+				if len(b)-i < 8 {
+					return 0, "input ends inside a fixed64 value", false
+				}
+				i += 8
+			case 5:
+				if len(b)-i < 4 {
+					return 0, "input ends inside a fixed32 value", false
+				}
+				i += 4
+			case 2:
+				l, n := uvarint(b[i:])
+				if n == -1 {
+					return 0, "input ends inside a length", false
+				}
+				if n == -2 {
+					return 0, "", true
+				}
+				i += n
+				if l > uint64(len(b)-i) {
+					return 0, "length-delimited payload runs past the end of the input", false
+				}
+				payload := b[i : i+int(l)]
+				i += int(l)
+				if d != nil && depth < 200 {
+					if fd := d.Fields().ByNumber(num); fd != nil && fd.Kind() == protoreflect.MessageKind {
+						// a message field or a map entry: its payload is a message again
+						_, why, und := walk(fd.Message(), payload, false, depth+1)
+						if und {
+							return 0, "", true
+						}
+						if why != "" {
+							return 0, "in field " + string(fd.Name()) + ": " + why, false
+						}
+					}
+				}
+			case 3:
+				n, why, und := walk(nil, b[i:], true, depth+1)
+				if und || why != "" {
+					return 0, why, und
+				}
+				i += n
+			case 4:
+				if !inGroup {
+					return 0, "end-group tag outside a group", false
+				}
+				return i, "", false
+			default:
+				return 0, fmt.Sprintf("wire type %d", wt), false
+			}
+		}
+		if inGroup {
+			return 0, "input ends inside a group", false
+		}
+		return i, "", false
+	}
+	_, why, und := walk(d, b, false, depth)
+	return why, und
+}
+
+func wireTypeOfKind(k protoreflect.Kind) protowire.Type {
+	switch k {
+	case protoreflect.Fixed64Kind, protoreflect.Sfixed64Kind, protoreflect.DoubleKind:
+		return protowire.Fixed64Type
+	case protoreflect.Fixed32Kind, protoreflect.Sfixed32Kind, protoreflect.FloatKind:
+		return protowire.Fixed32Type
+	case protoreflect.StringKind, protoreflect.BytesKind, protoreflect.MessageKind:
+		return protowire.BytesType
+	case protoreflect.GroupKind:
+		return protowire.StartGroupType
+	}
+	return protowire.VarintType
 }
